@@ -402,9 +402,13 @@ var unknownNames = []string{"unknownKw", "foo", "Weird name", "é", "a\"b", "b\\
 var extSuffixes = []string{"foo", "bar", "nullable", "go-name", "order2", "é", "a b", "q\"", "b\\n", "0", "-", "UPPER", "ctl\x02", "a/b~c%d#e?f"}
 var mimeTypes = []string{"application/json", "text/plain", "application/xml", "*/*", "application/vnd.x+json; charset=utf-8"}
 var niceStrings = []string{"a", "text", "Some description.", "é", "日本", "with \"quotes\"", "back\\slash", "line\nbreak", "tab\t", "<b>&</b>", "l s", " ", "0", "null", "\x01"}
-var canonicalRefs = []string{"#/definitions/x", "#/definitions/a~1b", "other.json#/definitions/y", "http://host/a.json#/d", "sub/o.json", "#/parameters/p", "#/responses/r"}
+var canonicalRefs = []string{"#/definitions/x", "#/definitions/a~1b", "other.json#/definitions/y", "http://host/a.json#/d", "sub/o.json", "#/parameters/p", "#/responses/r",
+	// names that a pointer has to escape, in their canonical spelling: "100%", "a%20b" (a literal percent sign), "a b", "{id}", "é", "Cats&Dogs"
+	"#/definitions/100%25", "#/definitions/a%2520b", "#/definitions/a%20b", "#/paths/~1pets~1%7Bid%7D", "#/definitions/%C3%A9",
+	"other.json?rev=2&x=1#/definitions/Cats&Dogs"}
 var oddRefs = []string{"", "#", "%zz", "http://[::1", "a b", "//", "HTTP://Host:80//a//b.json#/x", "#/a%2Fb", ":", "file:///a/../b.json#",
 	// characters that JSON has to escape, in the parts of a URL that net/url prints verbatim (query, opaque part)
+	"#/definitions/100%25", "#/definitions/a%2520b", "#/definitions/%FF", "#/definitions/{id}", "#/definitions/a b", "doc.json#/definitions/%2525",
 	`other.json?filter="a"#/definitions/x`, `models.json?rev=2","title":"injected`, `urn:schemas\thing`, `mailto:a"b@c`, `a.json?q=\u0041`}
 var jsonTypes = []string{"string", "number", "integer", "boolean", "array", "object", "null"}
 var statusCodes = []string{"200", "201", "204", "400", "404", "500", "100", "599", "600", "701", "999"} // any three digits (^([0-9]{3})$ in the meta-schema)
